@@ -783,13 +783,10 @@ def c06_f(ctx):
         ctx.bad(ns, 'append path', 'NpyStore.__setitem__ never appends `data` to the array',
                 fn=ns, node=ns.node)
     for a in apps:
-        g_ok = False
-        for (t, pol, tast) in ctx.guards(ns, a):
-            if pol and (contains(t, 'batch_index == self.n_batches') or
-                        contains(t, 'self.n_batches == batch_index')) and \
-                    (contains(t, '_.start == len(self.array)') or
-                     contains(t, 'len(self.array) == _.start')):
-                g_ok = True
+        gs_ = [(t, pol) for (t, pol, tast) in ctx.guards(ns, a) if pol and t[0] != 'bool']
+        g_ok = any(match(t, pattern('batch_index == self.n_batches')) is not None
+                   for (t, pol) in gs_) and \
+            any(match(t, pattern('_.start == len(self.array)')) is not None for (t, pol) in gs_)
         ctx.check(g_ok, ns, 'append guard',
                   'append only when batch_index == n_batches and slice start == len(array)',
                   'append is not guarded by batch_index == n_batches and start == len(array)',
